@@ -430,6 +430,85 @@ class CheckTimeout(BaseException):
     pass
 
 
+class LibraryCrash(BaseException):
+    """a worker process died (signal) while running the library"""
+
+    def __init__(self, inflight):
+        BaseException.__init__(self, "worker process died")
+        self.inflight = inflight
+
+
+_INFLIGHT = {}
+
+
+def _inflight_path(pid):
+    return os.path.join(VERIF, "replays", ".inflight-%d.json" % pid)
+
+
+def note_inflight(case):
+    """record the scenario about to be run on the library, so that it can be named should the interpreter die in it"""
+    pid = os.getpid()
+    f = _INFLIGHT.get(pid)
+    if f is None:
+        os.makedirs(os.path.join(VERIF, "replays"), exist_ok=True)
+        _INFLIGHT.clear()
+        f = _INFLIGHT[pid] = open(_inflight_path(pid), "w")
+        import atexit
+        atexit.register(clear_inflight)
+    f.seek(0)
+    f.truncate()
+    json.dump(case, f, default=str)
+    f.flush()
+
+
+def clear_inflight():
+    pid = os.getpid()
+    f = _INFLIGHT.pop(pid, None)
+    if f is not None:
+        f.close()
+        try:
+            os.remove(_inflight_path(pid))
+        except OSError:
+            pass
+
+
+def _pmap_call(a):
+    fn, chunk = a
+    try:
+        return fn(chunk)
+    finally:
+        clear_inflight()
+
+
+def pmap(fn, chunks):
+    """fn over chunks in forked worker processes; a worker killed by a signal raises LibraryCrash (multiprocessing.Pool
+    would wait forever for the lost task)"""
+    import concurrent.futures as cf
+    import multiprocessing
+    from concurrent.futures.process import BrokenProcessPool
+    ex = cf.ProcessPoolExecutor(len(chunks), mp_context=multiprocessing.get_context("fork"))
+    try:
+        futs = [ex.submit(_pmap_call, (fn, c)) for c in chunks]
+        pids = list(getattr(ex, "_processes", {}) or {})
+        try:
+            return [f.result() for f in futs]
+        except BrokenProcessPool:
+            infl = []
+            _kill_descendants()
+            for pid in pids:
+                try:
+                    infl.append(json.load(open(_inflight_path(pid))))
+                except Exception:
+                    pass
+                try:
+                    os.remove(_inflight_path(pid))
+                except OSError:
+                    pass
+            raise LibraryCrash(infl)
+    finally:
+        ex.shutdown(wait=False, cancel_futures=True)
+
+
 class CallTimeout(BaseException):
     """one call into the library exceeded its time limit (BaseException: `except Exception` in the library must not swallow it)"""
 
@@ -508,6 +587,18 @@ def run_main(main):
     signal.alarm(budget)
     try:
         main()
+    except LibraryCrash as e:
+        os.makedirs(os.path.join(VERIF, "replays"), exist_ok=True)
+        rel = "replays/%s-crash.json" % prop
+        json.dump({"property": prop, "kind": "interpreter-crash", "tier": tier,
+                   "note": "a worker process running the library was killed by a signal (segmentation fault, abort or the memory "
+                           "limit); the scenarios in flight in the dead workers are listed",
+                   "in_flight": e.inflight[:4]}, open(os.path.join(VERIF, rel), "w"), indent=1, default=str)
+        print("VIOLATION property=%s replay=%s%s" % (prop, rel, "" if e.inflight else " no-failing-input-found"))
+        sys.stdout.flush()
+        _kill_descendants()
+        clear_inflight()
+        os._exit(EXIT_VIOLATION)
     except CheckTimeout:
         os.makedirs(os.path.join(VERIF, "replays"), exist_ok=True)
         rel = "replays/%s-timeout.json" % prop
@@ -519,6 +610,7 @@ def run_main(main):
         print("VIOLATION property=%s replay=%s no-failing-input-found" % (prop, rel))
         sys.stdout.flush()
         _kill_descendants()                              # worker processes still inside the library
+        clear_inflight()
         os._exit(EXIT_VIOLATION)
     except InfraError as e:
         print("INFRA-ERROR: " + str(e))
